@@ -15,12 +15,12 @@ func init() {
 				"ok(oidc.CheckSignature(_, $assertion, $payload, $r0, nil, $ks))",
 				"(def($ks, $v.keySet) && nonnil($v.keySet)) || def($ks, &jwtProfileKeySet{storage: $v.Storage, clientID: $r0.Issuer})",
 			}},
-		{ID: "E8.assertion.default-subject-check", Fn: "op.newJWTProfileVerifier", P: []string{"storage", "keySet"}, Kind: "ret any", Pat: "ret(&JWTProfileVerifier{CheckSubject: op.SubjectIsIssuer, Storage: $storage, keySet: $keySet})", Max: 1},
+		{ID: "E8.assertion.default-subject-check", Fn: "op.newJWTProfileVerifier", P: []string{"storage", "keySet"}, Kind: "ret any", Pat: "ret(&JWTProfileVerifier{CheckSubject: op.SubjectIsIssuer, Storage: $storage, keySet: $keySet})", Max: 1, Only: true},
 		{ID: "E1.assertion.subject-is-issuer.accept", Fn: "op.SubjectIsIssuer", P: []string{"request"}, Kind: "ret ok", Req: []string{"eq($request.Issuer, $request.Subject)"}},
 		{ID: "E1.assertion.subject-is-issuer.reject", Fn: "op.SubjectIsIssuer", P: []string{"request"}, Kind: "ret fail", Req: []string{"neq($request.Issuer, $request.Subject)"}},
 		{ID: "E8.assertion.client-is-issuer", Fn: "op.ClientJWTAuth", P: []string{"ctx", "ca", "verifier"}, Kind: "ret ok", Max: 1,
 			Req: []string{"def($profile, op.VerifyJWTAssertion(_, $ca.ClientAssertion, _), 0)", "ok(op.VerifyJWTAssertion(_, $ca.ClientAssertion, _))", "same($r0, $profile.Issuer)"}},
-		{ID: "E8.assertion.verifier-per-request-issuer", Fn: "op.(*Provider).JWTProfileVerifier", P: []string{"o", "ctx"}, Kind: "ret any", Pat: "ret(op.NewJWTProfileVerifier($o.Storage(), op.IssuerFromContext($ctx), __))", Max: 1,
+		{ID: "E8.assertion.verifier-per-request-issuer", Fn: "op.(*Provider).JWTProfileVerifier", P: []string{"o", "ctx"}, Kind: "ret any", Pat: "ret(op.NewJWTProfileVerifier($o.Storage(), op.IssuerFromContext($ctx), __))", Max: 1, Only: true,
 			Why: "the assertion's audience must contain the issuer of the request at hand"},
 		{ID: "E8.assertion.verifier-per-request-issuer.only", Fn: "op.(*Provider).JWTProfileVerifier", Kind: "ret any", Max: 1},
 		// request objects
